@@ -104,6 +104,10 @@ impl SharedBlockstore {
     { unimplemented!() }
 }
 impl SharedPool {
+    // Pool::finalized_slot (the highest finalized slot; PoolImpl::finalized_slot is under contract in unit pool)
+    pub uninterp spec fn spec_finalized(&self) -> Slot;
+    #[verifier::external_body] pub fn read(&self) -> (r: &SharedPool) ensures *r == *self { unimplemented!() }
+    #[verifier::external_body] pub fn finalized_slot(&self) -> (r: Slot) ensures r == self.spec_finalized() { unimplemented!() }
     #[verifier::external_body] pub fn write(&mut self) -> (r: &mut SharedPool) { unimplemented!() }
     #[verifier::external_body]
     pub fn add_block(&mut self, id: BlockId, parent: BlockId)
@@ -120,6 +124,11 @@ impl DisseminatorHandle {
     { unimplemented!() }
 }
 
+// "far in the future": at or beyond the bound the pool puts on votes and certificates (two epochs past the finalized slot)
+pub open spec fn far_future(finalized: Slot, slot: Slot) -> bool {
+    slot.0 >= (if finalized.0 + 2 * SLOTS_PER_EPOCH > u64::MAX { u64::MAX as int } else { finalized.0 + 2 * SLOTS_PER_EPOCH })
+}
+
 // struct Alpenglow<A, D, T> (src/consensus.rs) with the four handles handle_disseminator_shred uses
 pub struct Alpenglow {
     pub epoch_info: EpochHandle,
@@ -131,6 +140,14 @@ pub struct Alpenglow {
 pub mod code {
 use super::*;
 
+impl Slot {
+/*@ extract src/types/slot.rs :: impl Slot/fn inner
+ret r
+ensures
+        r == self.0,
+@*/
+}
+
 impl Alpenglow {
 /*@ extract src/consensus.rs :: impl Alpenglow<A, D, T>/fn handle_disseminator_shred
 props C12 C13 C16
@@ -141,19 +158,27 @@ sig `std::io::Result<()>` => `Result<(), IoError>`
 rewrite[R3b] `self.disseminator.forward(` => `self.disseminator.verif_forward(`
 ensures
         final(self).epoch_info == old(self).epoch_info,
+        // [C10.far_future_shred_is_ignored C13.far_future_shred_is_ignored] a shred for a slot two epochs or more past the finalized
+        // slot is dropped whoever signed it: nothing is forwarded, stored or reported for it (no slot near u64::MAX ever reaches
+        // the blockstore and, through its events, the slot arithmetic of the voting loop)
+        far_future(old(self).pool.spec_finalized(), shred.spec_payload().header.slot) ==>
+            final(self).disseminator.forwarded() == old(self).disseminator.forwarded()
+            && final(self).blockstore.ingested() == old(self).blockstore.ingested()
+            && final(self).blockstore.flagged() == old(self).blockstore.flagged(),
         // [C12.proven_equivocation_is_reported C13.conflicting_slices_flag_the_leader] a validly signed shred whose commitment differs
         // from the one cached for its slot and slice is proof of leader equivocation: the slot is flagged, never silently dropped
-        (old(self).blockstore.spec_cached(shred.spec_payload().header.slot, shred.spec_payload().header.slice_index) matches Some(c)
-            && !commit_matches(c, shred) && sig_ok(shred, old(self).epoch_info.spec_leader(shred.spec_payload().header.slot).pubkey))
+        (!far_future(old(self).pool.spec_finalized(), shred.spec_payload().header.slot)
+            && (old(self).blockstore.spec_cached(shred.spec_payload().header.slot, shred.spec_payload().header.slice_index) matches Some(c)
+            && !commit_matches(c, shred) && sig_ok(shred, old(self).epoch_info.spec_leader(shred.spec_payload().header.slot).pubkey)))
             ==> final(self).blockstore.flagged().contains(shred.spec_payload().header.slot),
         // [C12.unauthentic_shred_goes_nowhere]
         !( (old(self).blockstore.spec_cached(shred.spec_payload().header.slot, shred.spec_payload().header.slice_index) matches Some(c) && commit_matches(c, shred))
             || sig_ok(shred, old(self).epoch_info.spec_leader(shred.spec_payload().header.slot).pubkey) )
             ==> final(self).disseminator.forwarded() == old(self).disseminator.forwarded() && final(self).blockstore.ingested() == old(self).blockstore.ingested(),
         // [C16.every_authentic_shred_is_offered_for_forwarding] also in the leader's own slots (the leader can be a relay)
-        ((old(self).blockstore.spec_cached(shred.spec_payload().header.slot, shred.spec_payload().header.slice_index) is None
+        (!far_future(old(self).pool.spec_finalized(), shred.spec_payload().header.slot) && ((old(self).blockstore.spec_cached(shred.spec_payload().header.slot, shred.spec_payload().header.slice_index) is None
             && sig_ok(shred, old(self).epoch_info.spec_leader(shred.spec_payload().header.slot).pubkey))
-          || (old(self).blockstore.spec_cached(shred.spec_payload().header.slot, shred.spec_payload().header.slice_index) matches Some(c) && commit_matches(c, shred)))
+          || (old(self).blockstore.spec_cached(shred.spec_payload().header.slot, shred.spec_payload().header.slice_index) matches Some(c) && commit_matches(c, shred))))
             ==> final(self).disseminator.forwarded() == old(self).disseminator.forwarded().push(shred),
         // [C13.authentic_shred_is_ingested_unless_own_slot]
         final(self).blockstore.ingested() == old(self).blockstore.ingested()
